@@ -189,6 +189,17 @@ Section Model.
      false: vsprintf(s->val + pos, fmt, va) after the realloc — an argument pointing into the old
      block is read after it was released *)
   Variable format_self_safe : bool.
+  (* String_Resize as policy: whether n == strlen returns at once (no realloc); which of the two
+     paths runs after the realloc (true: val[n] = 0; false: memset(val + m, 0, fill n m)); the
+     number of bytes zeroed from m on (over Z: a negative count is a size_t wrap-around) *)
+  Variable resize_same_returns : bool.
+  Variable resize_shrinks : nat -> nat -> bool.
+  Variable resize_fill : Z -> Z -> Z.
+  (* String_Format_To may render into a local buffer of format_cap bytes while it measures and
+     use that text unless format_heap_when size cap says "render again into a heap temporary".
+     No local buffer: cap = 0 and heap_when = true. *)
+  Variable format_cap : nat.
+  Variable format_heap_when : nat -> nat -> bool.
 
   (* String_New(self, args) with one argument: val = NULL, then String_Assign *)
   (* String_Assign: val = realloc(val, strlen(v)+1); strcpy(val, v) *)
@@ -240,13 +251,19 @@ Section Model.
       end
     else None.
 
-  (* String_Resize: m = strlen; realloc(n+1); n > m ? memset(val+m, 0, n-m) : val[n] = 0 *)
+  (* String_Resize: m = strlen; [n == m: return;] realloc(..); then either val[n] = 0 or
+     memset(val + m, 0, fill) *)
   Definition m_resize (b : buffer) (n : nat) : option buffer :=
     match c_strlen b with
     | None => None
     | Some m =>
-        let b' := realloc b (resize_alloc n) in
-        if m <? n then write b' m (repeat 0 (n - m)) else write b' n [0]
+        if resize_same_returns && (n =? m) then Some b
+        else
+          let b' := realloc b (resize_alloc n) in
+          if resize_shrinks n m then write b' n [0]
+          else let f := resize_fill (Z.of_nat n) (Z.of_nat m) in
+               if (f <? 0)%Z then None            (* size_t wrap-around: a memset of ~2^64 bytes *)
+               else write b' m (repeat 0 (Z.to_nat f))
     end.
 
   (* String_Rem: pos = strstr(val, v); memmove(pos, pos+strlen(v), count) *)
@@ -266,9 +283,14 @@ Section Model.
         end
     end.
 
-  (* String_Format_To: size = vsnprintf(NULL,0,..); realloc(pos+size+1); vsprintf(val+pos, ..) *)
+  (* String_Format_To: size = vsnprintf(buf-or-NULL, cap, ..); the text is taken from the local
+     buffer (which holds at most cap-1 characters and a NUL: copying size+1 bytes out of it when
+     size+1 > cap reads past the array — undefined) or rendered into a heap temporary;
+     realloc(pos+size+1); memcpy(val+pos, text, size+1) *)
   Definition m_format_to (b : buffer) (pos : nat) (text : list byte) : option buffer :=
-    write (realloc b (format_alloc pos (length text))) pos (text ++ [0]).
+    if format_heap_when (length text) format_cap || (length text + 1 <=? format_cap)
+    then write (realloc b (format_alloc pos (length text))) pos (text ++ [0])
+    else None.
 
   (* print_to_with: one format_to per piece of the format, the position advances.  The varargs
      are evaluated per piece: "%s" with the target itself passes the target's current buffer *)
